@@ -31,7 +31,11 @@ func init() {
 		ID: "C09", Level: "exploration", Race: true,
 		Rule: "history = one validator (or two validators sharing one *verify.Options) created first and then invoked from 2..16 goroutines (and successively) on attestations with endorsed, unendorsed and wrong-length measurements, endorsement by argument / options / getter, ExpectedLaunchVMSAs 0 or k, GOMAXPROCS in {2,4,16}; runs on the -race build. " +
 			"Oracle (i): no race-detector report with a repository frame. Oracle (ii): every call returns what the same (attestation, endorsement, configured options) returns alone on a private options value. " +
-			"non-trivial = histories in which calls on different measurements actually overlapped in time (call/return sequence numbers from one atomic counter); distinct = (validators, source, vmsas, goroutines, GOMAXPROCS, overlap class) cells",
+			"non-trivial = histories in which calls on different measurements actually overlapped in time (call/return sequence numbers from one atomic counter); distinct = (validators, source, vmsas, goroutines, GOMAXPROCS, overlap class) cells. " +
+			"Further families (audit.go, same oracles): mixed = 8 validators with different options (clock in/outside the signer certificate's validity, right/wrong/no roots, expected digest, VMSA counts, base policy/overwrite, other family id) alive and invoked together, a sibling pair differing in one option must accept resp. reject the same input; " +
+			"reconfig = one SevValidateOptions value whose owner changes one field before each burst of SevValidate calls, each call compared with a fresh options value of the same field values; " +
+			"reused = each goroutine keeps one attestation value, measurement buffer and endorsement buffer refilled in place; " +
+			"flaky = endorsements downloaded from a bucket whose answer per object follows a script (good/error/garbage/empty/other build), each call judged by the answer its own download got",
 		Assumptions: []string{"interleavings are whatever the Go scheduler produces; the race detector needs only two unordered accesses, the behavioural oracle needs the bad interleaving",
 			"validators are created before the goroutines start (C09 quantifies over invocations, not creation)"},
 		ShardsQuick: 6, ShardsThor: 12, TimeoutS: 1800, TimeoutThor: 5400, Run: run,
@@ -361,4 +365,11 @@ func run(c *core.Ctx) {
 		c.End(h)
 	}
 	c.Floor("some-history-had-endorsed-x-unendorsed-overlap", overlapHist > 0)
+	// further families of histories (audit.go), numbered after the ones above
+	eF := &epb.VMLaunchEndorsement{}
+	proto.Unmarshal(rawF, eF)
+	runAudit(c, &world{pki: pki, nb: nb, now: now, vcek: vcek, inputs: inputs, mk: mk, m4: m4,
+		A: &endo{"A", e, raw, true, g.Digest, g.SevSnp.Measurements},
+		B: &endo{"B", eB, rawB, true, gB.Digest, gB.SevSnp.Measurements},
+		F: &endo{"F", eF, rawF, false, gF.Digest, gF.SevSnp.Measurements}})
 }
